@@ -4,6 +4,7 @@ import (
 	"context"
 	"fmt"
 	"math/rand"
+	"sort"
 	"strconv"
 	"strings"
 
@@ -40,6 +41,15 @@ func fmtPlacements(l []board.Placement) string {
 		sb.WriteString(pl.Square.String())
 	}
 	return sb.String()
+}
+
+func fmtPlacementsSorted(l []board.Placement) string {
+	var s []string
+	for _, pl := range l {
+		s = append(s, strconv.Itoa(int(pl.Piece))+pl.Square.String())
+	}
+	sort.Strings(s)
+	return strings.Join(s, "")
 }
 
 func strsOrDash(l []string) string {
@@ -88,6 +98,7 @@ func init() {
 		for _, m := range base {
 			safe = append(safe, moveUci(m)+":"+bit01(bernstein.IsMoveSafe(pos, turn, m))+bit01(bernstein.IsSafe(pos, turn, m.Piece, m.From)))
 		}
+		sort.Strings(safe)
 		uciList := func(l []board.Move) string {
 			var s []string
 			for _, m := range l {
@@ -101,14 +112,107 @@ func init() {
 			table = table[:limit]
 		}
 		prio, pick := bernstein.PlausibleMoveTable{Limit: limit}.Explore(ctx, b)
+		legal := pos.LegalMoves(turn)
 		var sel []string
-		for _, m := range pos.LegalMoves(turn) {
+		for _, m := range legal {
 			if pick(m) {
 				sel = append(sel, fmt.Sprintf("%s:%d", moveUci(m), prio(m)))
 			}
 		}
-		var caps []string
+
+		// the properties of the real plausible list, judged with the harness' own legality computation
+		// (every pseudo-legal move that Position.Move accepts), text-wise
+		legalSet := map[string]bool{}
+		castleLegal := false
+		var nupLegal []string
+		for _, m := range pos.PseudoLegalMoves(turn) {
+			if _, ok := pos.Move(m); ok {
+				legalSet[moveUci(m)] = true
+				if m.Type == board.KingSideCastle || m.Type == board.QueenSideCastle {
+					castleLegal = true
+				}
+				if u := moveUci(m); len(u) == 4 || u[4] == 'q' {
+					nupLegal = append(nupLegal, u)
+				}
+			}
+		}
+		plOK := []bool{true, true, true, (len(plausible) == 0) == (len(legalSet) == 0), true}
+		seen := map[string]bool{}
+		var pn []string
+		for _, m := range plausible {
+			u := moveUci(m)
+			pn = append(pn, u)
+			if !legalSet[u] {
+				plOK[0] = false
+			}
+			if len(u) == 5 && u[4] != 'q' {
+				plOK[1] = false
+			}
+			if seen[u] {
+				plOK[2] = false
+			}
+			seen[u] = true
+		}
+		if !castleLegal {
+			a, c := append([]string{}, pn...), append([]string{}, nupLegal...)
+			sort.Strings(a)
+			sort.Strings(c)
+			plOK[4] = strings.Join(a, ",") == strings.Join(c, ",")
+		}
+		// the table the search gets: recomputed from the Explore predicate, not from our own truncation
+		tblOK := []bool{true, limit <= 0 || len(sel) <= limit, (len(sel) == 0) == (len(plausible) == 0), limit > 0 || len(sel) == len(plausible)}
+		picked := map[string]bool{}
+		for _, m := range legal {
+			if pick(m) {
+				picked[moveUci(m)] = true
+			}
+		}
+		for i, m := range plausible { // picked moves = a prefix of the plausible list
+			if picked[moveUci(m)] != (i < len(picked)) {
+				tblOK[0] = false
+			}
+		}
+		selOK := []bool{true, true}
+		for _, m := range legal {
+			in := false
+			for _, t := range table {
+				if t == m {
+					in = true
+				}
+			}
+			if pick(m) != in {
+				selOK[0] = false
+			}
+		}
+		for i, m := range table {
+			if int(prio(m)) != len(table)-i {
+				selOK[1] = false
+			}
+		}
+		flags := func(l []bool) string {
+			s := ""
+			for _, b := range l {
+				s += bit01(b)
+			}
+			return s
+		}
+
+		var caps, atts []string
+		capOK := true
 		for sq := board.ZeroSquare; sq < board.NumSquares; sq++ {
+			for _, c := range []board.Color{board.White, board.Black} {
+				raw := eval.FindCapture(pos, c, sq)
+				before := fmtPlacementsSorted(raw)
+				srt := eval.SortByNominalValue(append([]board.Placement{}, raw...))
+				for i := 1; i < len(srt); i++ {
+					if eval.NominalValue(srt[i-1].Piece) > eval.NominalValue(srt[i].Piece) {
+						capOK = false
+					}
+				}
+				if fmtPlacementsSorted(srt) != before {
+					capOK = false
+				}
+			}
 			if pos.IsEmpty(sq) {
 				continue
 			}
@@ -118,15 +222,22 @@ func init() {
 				return s + ">" + fmtPlacements(eval.SortByNominalValue(raw))
 			}
 			caps = append(caps, sq.String()+":"+one(board.White)+"/"+one(board.Black))
+			bySq := func(c board.Color) string {
+				raw := eval.FindCapture(pos, c, sq)
+				sort.SliceStable(raw, func(i, j int) bool { return raw[i].Square < raw[j].Square })
+				return fmtPlacements(raw)
+			}
+			atts = append(atts, sq.String()+":"+bySq(board.White)+"/"+bySq(board.Black))
 		}
 
-		return fmt.Sprintf("self=%d opp=%d eval=%s mob=%s ctl=%s def=%s mat=%s chk=%s safe=%s plausible=%s table=%s sel=%s cap=%s",
+		return fmt.Sprintf("self=%d opp=%d eval=%s mobT=%d mobO=%d ctl=%s def=%s mat=%s chk=%s base=%s safe=%s plausible=%s table=%s sel=%s pl-ok=%s tbl-ok=%s sel-ok=%s cap=%s cap-ok=%s att=%s",
 			self, other, fmt32(float32(ev)),
-			two(func(c board.Color) int { return bernstein.Mobility(pos, c) }),
+			bernstein.Mobility(pos, turn), bernstein.Mobility(pos, opp),
 			two(func(c board.Color) int { return bernstein.Control(pos, c) }),
 			two(func(c board.Color) int { return bernstein.KingDefense(pos, c) }),
 			two(func(c board.Color) int { return bernstein.Material(pos, c) }),
-			bit01(pos.IsChecked(turn)), strsOrDash(safe), uciList(plausible), uciList(table), strsOrDash(sel), strsOrDash(caps))
+			bit01(pos.IsChecked(turn)), uciList(base), strsOrDash(safe), uciList(plausible), uciList(table), strsOrDash(sel),
+			flags(plOK), flags(tblOK), flags(selOK), strsOrDash(caps), bit01(capOK), strsOrDash(atts))
 	})
 	register("bernstein", genBernstein)
 }
@@ -185,15 +296,18 @@ var bernsteinCurated = []string{
 	"4k3/4p3/8/3p4/8/8/8/4K3 w - - 0 1 ;",
 	"4k3/3p4/8/8/8/8/8/4K3 b - - 0 1 ; m:d7d5",
 	"rnbqkbnr/pppppppp/8/8/8/8/PPPPPPPP/RNBQKBNR w KQkq - 0 1 ; m:e2e4 m:d7d5",
+	// IsMoveSafe judges a promoted queen as a pawn (obs_isMoveSafe_promotion_judged_as_pawn)
+	"8/P7/1n6/7k/8/8/8/R3K3 w - - 0 1 ;",
+	"rnbqkbnr/pppppppp/8/8/8/8/PPPPPPPP/RNBQKBNR b KQkq - 0 1 ;",
 	// a side without a king: KingDefense indexes king[64] and panics
 	"8/8/8/8/8/8/8/K7 w - - 0 1 ;",
 	"k7/8/8/8/8/8/8/8 w - - 0 1 ;",
 }
 
 func genBernstein(o *Out, r *rand.Rand, thorough bool) {
-	n := 900
+	n := 620
 	if thorough {
-		n = 20000
+		n = 13000
 	}
 	factors := []int{1, 8, 20, 0, 100, 3, 10000, 7}
 	limits := []int{7, 1, 3, 0, 50, -1, 2, 5}
